@@ -51,29 +51,35 @@ func scanGrid(f func(float64) float64, lo, hi float64, n int, dir float64, k int
 	}
 	type cand struct {
 		i int
-		s float64
+		s float64 // second difference of the increments around cell i: -2J for a jump J inside the cell
+	}
+	sd := func(i int) (float64, bool) {
+		if i < 1 || i+2 > n || !hbFinite(fs[i-1]) || !hbFinite(fs[i]) || !hbFinite(fs[i+1]) || !hbFinite(fs[i+2]) {
+			return 0, false
+		}
+		return (fs[i+2] - fs[i+1]) - 2*(fs[i+1]-fs[i]) + (fs[i] - fs[i-1]), true
 	}
 	var cs []cand
 	for i := 1; i+2 <= n; i++ {
-		if !hbFinite(fs[i-1]) || !hbFinite(fs[i]) || !hbFinite(fs[i+1]) || !hbFinite(fs[i+2]) {
+		s, ok := sd(i)
+		if !ok || math.Abs(s) <= scanThreshold {
 			continue
 		}
-		s := math.Abs((fs[i+2] - fs[i+1]) - 2*(fs[i+1]-fs[i]) + (fs[i] - fs[i-1]))
-		if s > scanThreshold {
-			cs = append(cs, cand{i, s})
+		// the jump cell is the local maximum of |s| (its two neighbours see +J each)
+		if l, ok := sd(i - 1); ok && math.Abs(l) > math.Abs(s) {
+			continue
 		}
+		if r, ok := sd(i + 1); ok && math.Abs(r) > math.Abs(s) {
+			continue
+		}
+		cs = append(cs, cand{i, s})
 	}
-	sort.Slice(cs, func(a, b int) bool { return cs[a].s > cs[b].s })
-	seen := map[int]bool{}
+	// steps AGAINST the direction of monotonicity first (J = -s/2, so dir*s large and positive), largest first
+	sort.Slice(cs, func(a, b int) bool { return dir*cs[a].s > dir*cs[b].s })
 	for _, c := range cs {
 		if len(cells) >= k {
 			break
 		}
-		// one cell per jump: the neighbours of a jump cell are outliers too
-		if seen[c.i-1] || seen[c.i+1] || seen[c.i] {
-			continue
-		}
-		seen[c.i] = true
 		cells = append(cells, c.i)
 	}
 	return
